@@ -82,10 +82,13 @@ def volsize_alphabet():
 
 def volsize_strings(tier):
     alpha = volsize_alphabet()
-    maxlen = 4 if tier == "quick" else 5
+    maxlen = 3 if tier == "quick" else 4
     for n in range(0, maxlen + 1):
         for t in itertools.product(alpha, repeat=n):
             yield "".join(t)
+    # one more letter over a reduced alphabet
+    for t in itertools.product(["0", "1", "b", "k", "K", "G", "x", "\n", "\u212a", "-"], repeat=maxlen + 1):
+        yield "".join(t)
     # all ten digits with every unit
     for d in "0123456789":
         for u in [""] + list("bkmgBKMG"):
@@ -94,9 +97,9 @@ def volsize_strings(tier):
     for s in ["1000", "10240", "4294967296", "18446744073709551616", "0000012k", "007", "2147483648b", "1kk", "1k\n\n",
               "\n1k", "1\nk", "1k ", "1\r", "1k\r\n", "1\u212a\n", "12\u00b5", "1\u1e9e", "1\u0131", "1\u017f"]:
         yield s
-    for n in (999, 1000, 4299, 4300, 4301, 4302, 5000):
-        for lead in ("1", "0", "9"):
-            for u in ("", "k", "G", "\n", "x"):
+    for n in ((999, 4300, 4301) if tier == "quick" else (999, 1000, 4299, 4300, 4301, 4302, 5000)):
+        for lead in (("1", "0") if tier == "quick" else ("1", "0", "9")):
+            for u in (("", "k", "x") if tier == "quick" else ("", "k", "G", "\n", "x")):
                 yield lead * n + u
                 yield "0" * (n - 1) + "7" + u
 
@@ -155,16 +158,12 @@ def check_volsize(ctx, rep, rng, tier):
         if model is not None:
             mv, mc, mg, mh, mu = model.call("cli_volsize_all", cps(s))
             if (mv == 1) != bool(valid) or not isinstance(valid, bool) or mc != conv:
-                rep.violation("volume size %r: cli.py gives valid=%r conv=%r, Cli.v gives valid=%r conv=%r" % (
-                    s[:40], valid, _short(conv), mv, _short(mc)), {"kind": "volsize", "s": cps(s)}, concrete=False,
-                    match_keys={"kind": "volsize-correspondence"})
-                if len(rep.violations) > 5:
-                    return
-                continue
+                corr_violation(rep, "volsize", "volume size %r: cli.py gives valid=%r conv=%r, Cli.v gives valid=%r conv=%r" % (
+                    s[:40], valid, _short(conv), mv, _short(mc)), {"kind": "volsize", "s": cps(s)},
+                    {"kind": "volsize-correspondence"})
             if (mg == 1) != in_g or (in_g and denoted[0] is not None and mh != denoted[0] * MULT[denoted[1]]):
-                rep.violation("in_help_grammar/help_size of Cli.v disagree with the documented grammar on %r" % s[:40],
-                              {"kind": "volsize", "s": cps(s)}, concrete=False, match_keys={"kind": "help-grammar-model"})
-                continue
+                corr_violation(rep, "grammar", "in_help_grammar/help_size of Cli.v disagree with the documented grammar on %r" % s[:40],
+                               {"kind": "volsize", "s": cps(s)}, {"kind": "help-grammar-model"})
         # property on the implementation: a documented size is accepted and converted to what it denotes
         if in_g:
             want = None if denoted[0] is None else denoted[0] * MULT[denoted[1]]
@@ -177,6 +176,8 @@ def check_volsize(ctx, rep, rng, tier):
                     observations.append("a SIZE of more than 4300 digits passes the validity check and then raises "
                                         "ValueError (int() digit limit): valid=%r conv=%r" % (valid, _short(conv)))
                 continue
+            if want == 0:
+                continue            # a volume size of 0 bytes: nothing to require
             unitless = denoted[1] == ""
             key = "volsize-no-unit" if unitless else "volsize-unit"
             if key in reported:
@@ -195,8 +196,22 @@ def check_volsize(ctx, rep, rng, tier):
     rep.sample({"volsize": "2k", "impl": impl_volsize(cli, "2k")})
 
 
+_CORR = {}
+
+
+def corr_violation(rep, key, what, replay, mk):
+    """model and implementation disagree: at most 3 reports per part, the run goes on so that the property
+    checks below can still turn the disagreement into a concrete failing input"""
+    _CORR[key] = _CORR.get(key, 0) + 1
+    if _CORR[key] <= 3:
+        rep.violation(what, replay, concrete=False, match_keys=mk)
+
+
 def _short(x):
-    s = repr(x)
+    try:
+        s = repr(x)
+    except ValueError:      # int with more than 4300 digits
+        s = "<%s with a huge int>" % type(x).__name__
     return s if len(s) < 60 else s[:57] + "..."
 
 
@@ -253,8 +268,6 @@ class StubLib:
 
 
 def make_fake_py7zr(st, record):
-    real_testzip = core.SevenZipFile.testzip
-
     class FakeWorker:
         def __init__(self, *a, **k):
             pass
@@ -265,25 +278,35 @@ def make_fake_py7zr(st, record):
         def extract(self, *a, **k):
             st.maybe_raise(4, "work")
 
-    class FakeArchive:
+    class FakeArchive(core.SevenZipFile):
+        """the real class (so that the real testzip / reset run) with everything that touches an archive replaced"""
+
         def __init__(self, file, mode="r", *a, **k):
             record["open"] = {"file": file, "mode": mode, "kw": dict(k)}
             st.maybe_raise(2, "open")
             self.filename = getattr(file, "name", None) or str(file)
             self.mode = mode
             self.fp = io.BytesIO(b"")
+            self._filePassed = True
             self.afterheader = 0
             self.files = []
             self.mp = False
             self.password_protected = False
-            folders = types.SimpleNamespace(folders=[1])
-            self.header = types.SimpleNamespace(size=40, main_streams=types.SimpleNamespace(unpackinfo=folders))
+            self.worker = FakeWorker()
+            folder = types.SimpleNamespace(decompressor=None, files=[], coders=[])
+            unpackinfo = types.SimpleNamespace(folders=[folder], numfolders=1)
+            self.header = types.SimpleNamespace(size=40, main_streams=types.SimpleNamespace(
+                unpackinfo=unpackinfo, substreamsinfo=types.SimpleNamespace(num_unpackstreams_folders=[2]),
+                packinfo=types.SimpleNamespace(packpositions=[0, 0], packsizes=[0], crcs=[], digestdefined=[], packpos=0)))
 
         def __enter__(self):
             return self
 
         def __exit__(self, *a):
             return False
+
+        def close(self):
+            pass
 
         # run_test -> print_archiveinfo
         def _get_method_names(self):
@@ -293,8 +316,8 @@ def make_fake_py7zr(st, record):
         def _is_solid(self):
             return True
 
-        # the real testzip on top of the stub worker (py7zr.py7zr.Worker is patched while a case runs)
-        testzip = real_testzip
+        # testzip (and the reset it may call) are the real ones, on top of the stub worker: py7zr.py7zr.Worker
+        # is patched while a case runs
 
         # run_list / run_extract --verbose
         def archiveinfo(self):
@@ -438,16 +461,18 @@ def check_status_logic(ctx, rep, rng, tier):
                     else:
                         want = model.call("cli_run_list", lib)
                     if want != got:
-                        rep.violation("%s with library behaviour %s: cli.py gives %s, Cli.v gives %s" % (
-                            " ".join(argv[:-1 - len(odir)]), lib, got, want), replay, concrete=False,
-                            match_keys={"kind": "status-correspondence", "cmd": cmd})
-                        if len(rep.violations) > 5:
-                            return
-                        continue
+                        corr_violation(rep, "status-" + cmd, "%s with library behaviour %s: cli.py gives %s, Cli.v gives %s" % (
+                            " ".join([cmd] + flags), _libstr(lib), got, want), replay, {"kind": "status-correspondence", "cmd": cmd})
                 # property on the implementation: status 0 exactly on success
                 status = {0: lambda: 0 if len(got) == 1 else got[1], 1: lambda: got[1], 2: lambda: 1}[got[0]]()
+                if model is not None:
+                    code = {"l": 0, "t": 5}.get(cmd, 1 + (1 if "-P" in flags else 0) + (2 if "--verbose" in flags else 0))
+                    ms = model.call("cli_proc_status", [0, code, lib])
+                    if ms != status:
+                        corr_violation(rep, "procstatus", "%s with %s: exit status %d from cli.py's result %s, Cli.v's proc_status gives %d" % (
+                            " ".join([cmd] + flags), _libstr(lib), status, got, ms), replay, {"kind": "status-correspondence", "cmd": cmd})
                 if (status == 0) != success:
-                    via = "folder-crc" if (cmd == "t" and lib[4] == [7] and status == 0) else json.dumps(lib[2:])
+                    via = "folder-crc" if (cmd == "t" and lib[4] == [7] and status == 0) else _first_failure(cmd, flags, lib)
                     mk = {"kind": "%s-exit0-damaged" % cmd if status == 0 else "%s-nonzero-on-success" % cmd, "via": via}
                     if (cmd, via) in bad_zero:
                         continue
@@ -468,6 +493,24 @@ def check_status_logic(ctx, rep, rng, tier):
     finally:
         os.chdir(cwd)
         shutil.rmtree(tmp, ignore_errors=True)
+
+
+def _first_failure(cmd, flags, lib):
+    """the library step responsible for a non-success, in the order the sub-command performs them"""
+    if not lib[0]:
+        return "not-a-7z-file"
+    if cmd == "x" and "-P" in flags and lib[1]:
+        return "getpass"
+    for idx, nm in ((2, "open"), (3, "info"), (4, "work")):
+        if nm == "info" and cmd == "x" and "--verbose" not in flags:
+            continue
+        if lib[idx]:
+            return "%s:%s" % (nm, EXC_NAMES[lib[idx][0]])
+    return "none"
+
+
+EXC_NAMES = {1: "Bad7zFile", 2: "PasswordRequired", 3: "UnsupportedCompressionMethodError", 4: "DecompressionError", 5: "LZMAError",
+             6: "CrcError", 7: "CrcError-no-filename", 8: "KeyError", 9: "ValueError", 10: "other"}
 
 
 def _libstr(lib):
@@ -522,12 +565,21 @@ def check_create_append(ctx, rep, rng, tier, cli, tmp):
                             if ok and reached and "mv" in record and record["mv"]["kw"].get("ext_digits") != 4:
                                 ok = False
                             if not ok:
-                                rep.violation("c %r -v %r (exists=%s, -P=%s, lib=%s): cli.py gives %s target=%r volume=%r, Cli.v gives %s %r %r" % (
+                                corr_violation(rep, "create", "c %r -v %r (exists=%s, -P=%s, lib=%s): cli.py gives %s target=%r volume=%r, Cli.v gives %s %r %r" % (
                                     arcname, vol, exists, pw, lib, got, gt, gv, r, mt, mv),
-                                    {"kind": "create", "argv": argv, "lib": lib, "exists": exists}, concrete=False,
-                                    match_keys={"kind": "create-correspondence"})
-                                if len(rep.violations) > 5:
-                                    return
+                                    {"kind": "create", "argv": argv, "lib": lib, "exists": exists}, {"kind": "create-correspondence"})
+                        # property on the implementation: the archive c writes is named *.7z; a documented size with a unit
+                        # letter reaches multivolumefile as the number of bytes it denotes
+                        if gt is not None and not gt.endswith(".7z") and "create-target" not in _CORR:
+                            _CORR["create-target"] = 1
+                            rep.violation("c %s writes the archive to %r (not *.7z)" % (arcname, gt),
+                                          {"kind": "create", "argv": argv, "lib": lib, "exists": exists}, match_keys={"kind": "create-target-suffix"})
+                        if gt is not None and vol is not None and ref_help(vol)[0] and ref_help(vol)[1][1] != "":
+                            den = ref_help(vol)[1]
+                            if gv != den[0] * MULT[den[1]] and "create-volume" not in _CORR:
+                                _CORR["create-volume"] = 1
+                                rep.violation("c -v %s hands volume=%r to multivolumefile, the size denotes %d bytes" % (vol, gv, den[0] * MULT[den[1]]),
+                                              {"kind": "create", "argv": argv, "lib": lib, "exists": exists}, match_keys={"kind": "create-volume-size"})
                         if os.path.exists(tp) and os.path.isfile(tp):
                             os.remove(tp)
     # append
@@ -550,10 +602,9 @@ def check_create_append(ctx, rep, rng, tier, cli, tmp):
                 if model is not None:
                     want = model.call("cli_run_append", [cps(arcname), 1 if exists else 0, lib])
                     if want != got or ("open" in record and (str(record["open"]["file"]) != os.path.normpath(arcname) or record["open"]["mode"] != "a")):
-                        rep.violation("a %r (exists=%s, lib=%s): cli.py gives %s (%r), Cli.v gives %s" % (
+                        corr_violation(rep, "append", "a %r (exists=%s, lib=%s): cli.py gives %s (%r), Cli.v gives %s" % (
                             arcname, exists, lib, got, record.get("open"), want),
-                            {"kind": "append", "arc": arcname, "lib": lib, "exists": exists}, concrete=False,
-                            match_keys={"kind": "append-correspondence"})
+                            {"kind": "append", "arc": arcname, "lib": lib, "exists": exists}, {"kind": "append-correspondence"})
                 if os.path.isfile(tp):
                     os.remove(tp)
     rep.extra["create_append_cases"] = n
@@ -587,8 +638,8 @@ def check_list_suffix(ctx, rep, rng, tier, cli, tmp):
                 else:
                     g, base_ok = [], True
                 if g != want or not base_ok:
-                    rep.violation("l %r: cli.py opens MultiVolume %r, Cli.v expects %r" % (name, record.get("mv"), want),
-                                  {"kind": "list-suffix", "name": name}, concrete=False, match_keys={"kind": "list-suffix-correspondence"})
+                    corr_violation(rep, "lsuffix", "l %r: cli.py opens MultiVolume %r, Cli.v expects %r" % (name, record.get("mv"), want),
+                                   {"kind": "list-suffix", "name": name}, {"kind": "list-suffix-correspondence"})
     rep.extra["list_suffix_cases"] = n
 
 
@@ -1024,19 +1075,17 @@ def damage_variants(data, rng, tier, hdr_start):
     n = len(data)
     vs = [["same"]]
     if tier == "quick":
-        pos = set(range(0, 32, 3)) | {6, 7, 8, 12, 20, 28, 31}
-        pos |= set(rng.sample(range(32, hdr_start), min(14, hdr_start - 32)))
-        pos |= set(rng.sample(range(hdr_start, n), min(8, n - hdr_start))) | {hdr_start, n - 1, 32}
+        pos = {0, 5, 6, 7, 8, 11, 12, 19, 20, 27, 28, 31}
+        pos |= set(rng.sample(range(32, hdr_start), min(6, hdr_start - 32)))
+        pos |= set(rng.sample(range(hdr_start, n), min(2, n - hdr_start))) | {hdr_start, n - 1, 32}
         for q in sorted(pos):
             vs.append(["flip", q, rng.randrange(8)])
-        for t in (0, 5, 31, 32, 33, hdr_start - 1, hdr_start, hdr_start + 1, n - 1):
+        for t in (0, 31, 33, hdr_start - 1, hdr_start + 1, n - 1):
             vs.append(["trunc", t])
     else:
         for q in range(n):
             vs.append(["flip", q, rng.randrange(8)])
-            if q % 3 == 0:
-                vs.append(["flip", q, rng.randrange(8)])
-        for t in list(range(0, 40)) + list(range(40, n, 7)) + [n - 1]:
+        for t in list(range(0, 40, 3)) + list(range(40, n, 17)) + [n - 1]:
             vs.append(["trunc", t])
     return vs
 
@@ -1070,7 +1119,7 @@ def sc_special(p):
             open(path, "wb").write(no_streams_archive(p["names"]))
         expect_ok = bool(p.get("expect_ok"))
         res = {}
-        for cmd in (["t"], ["x"], ["x", "--verbose"], ["l"], ["l", "--verbose"]):
+        for cmd in ((["t"], ["x"], ["x", "--verbose"], ["l"], ["l", "--verbose"]) if expect_ok or p.get("all_cmds") else (["t"], ["x"], ["l"])):
             args = cmd + ["arc.7z"] + (["out%d" % len(res)] if cmd[0] == "x" else [])
             rc, so, se = run_cli(args, tmp)
             res[" ".join(cmd)] = (rc, (se.strip().splitlines() or so.strip().splitlines() or [""])[-1][:140])
@@ -1165,8 +1214,9 @@ def explore(ctx, rep, rng, tier):
     trees = tree_specs(rng, tier)
     for ti, (tname, spec) in enumerate(trees):
         combos = [(a, o, v) for a in ("arc", "arc.7z") for o in (True, False) for v in (False, True)]
-        if tier == "quick":
-            combos = [c for i, c in enumerate(combos) if (i + ti) % 2 == 0 or has_link(spec)]
+        if tier == "quick":     # every option value occurs with every tree; pairs rotate with the tree
+            pick = [(0, 7), (1, 6), (2, 5), (3, 4)][ti % 4]
+            combos = [c for i, c in enumerate(combos) if i in pick or (has_link(spec) and not c[1] and i % 2 == ti % 2)]
         for a, o, v in combos:
             jobs.append(("roundtrip", {"tree": spec, "tname": tname, "arcname": a, "odir": o, "verbose": v, "seed": ctx["seed"] + ti}))
     two = [["f", "p.txt", 40, "text", 0o644], ["f", "q.bin", 900, "random", 0o644]]
@@ -1189,9 +1239,9 @@ def explore(ctx, rep, rng, tier):
         jobs.append(("volume", {"tree": vol_tree, "size": s, "seed": ctx["seed"]}))
     jobs.append(("volume", {"tree": [["f", "r.bin", 1500, "random", 0o644]], "size": "1b", "seed": ctx["seed"]}))
     # damaged archives
-    chains = ["copy", "lzma2", "deflate", "bzip2", "zstd"] + ([] if tier == "quick" else ["lzma", "ppmd", "delta+lzma2", "x86+lzma2", "brotli"])
+    chains = ["copy", "lzma2", "deflate", "bzip2"] + ([] if tier == "quick" else ["zstd", "lzma", "ppmd", "delta+lzma2", "x86+lzma2", "brotli"])
     for ch in chains:
-        for encoded in ((True,) if tier == "quick" else (True, False)):
+        for encoded in ((True,) if (tier == "quick" or ch not in ("copy", "lzma2", "deflate")) else (True, False)):
             p = {"archive": "chain", "chain": ch, "encoded": encoded, "seed": ctx["seed"]}
             data, ms = base_archive(p)
             p["data_hex"], p["members_hex"] = data.hex(), [[n, d.hex()] for n, d in ms]
@@ -1267,9 +1317,10 @@ def explore(ctx, rep, rng, tier):
 
 def run(ctx):
     rep, tier = ctx["rep"], ctx["tier"]
+    _CORR.clear()
     rep.extra["model_available"] = ctx["model"] is not None
     rng = random.Random(ctx["seed"])
-    rep.cov["rule"] = ("volume sizes: every string of length <= 4 (quick) / 5 (thorough) over {0,1,9,b,k,m,g,B,K,M,G,x,P,-,.,space,newline,"
+    rep.cov["rule"] = ("volume sizes: every string of length <= 3 (quick; length 4 over a 10-letter subset) / 4 (thorough; length 5 over the subset) over {0,1,9,b,k,m,g,B,K,M,G,x,P,-,.,space,newline,"
                        "U+212A,U+FF11,U+0663} plus all digit x unit pairs and digit strings around the 4300-digit limit (non-trivial = passes the "
                        "validity check); exit status: every (is_7zfile, getpass, open, info, work) in {ok, 10 exception classes}^3 x t / x with "
                        "every flag combination / l (non-trivial = is_7zfile true); c/a: sizes x archive names x exists x -P x library behaviour; "
@@ -1283,6 +1334,7 @@ def run(ctx):
             rep.violation("%s raised %s: %s" % (part.__name__, type(e).__name__, e),
                           {"kind": "exception", "part": part.__name__, "trace": traceback.format_exc()[-1500:]},
                           match_keys={"kind": "exception", "part": part.__name__})
+    rep.violations.sort(key=lambda v: not v["concrete"])     # failing inputs first (the first five get replay files)
 
 
 def replay(d):
@@ -1314,6 +1366,35 @@ def replay(d):
                 not (cmd == "x" and "-P" in argv and lib[1])
             print("%s with %s: result %s, status %d, success %s" % (" ".join(r["argv"]), _libstr(lib), got, status, success))
             return 0 if (status == 0) == success else 1
+        finally:
+            os.chdir(cwd)
+            shutil.rmtree(tmp, ignore_errors=True)
+    if kind == "create":
+        cli = cli_mod.Cli()
+        tmp = tempfile.mkdtemp(prefix="c19s_")
+        cwd = os.getcwd()
+        try:
+            os.chdir(tmp)
+            os.makedirs("dir.7z")
+            os.makedirs("srcdir")
+            open("srcfile", "w").write("x")
+            argv = r["argv"]
+            arcname = argv[1]
+            target = arcname if arcname.endswith(".7z") else arcname + ".7z"
+            if r.get("exists"):
+                open(target, "w").write("x")
+            record = {}
+            got = impl_run(cli, argv, StubLib(r["lib"]), record)
+            gt = record["mv"]["args"][0] if "mv" in record else (str(record["open"]["file"]) if "open" in record else None)
+            gv = record["mv"]["kw"].get("volume") if "mv" in record else None
+            print("py7zr %s: result %s, archive written to %r, volume size %r" % (" ".join(argv), got, gt, gv))
+            bad = gt is not None and not gt.endswith(".7z")
+            if "-v" in argv and gt is not None:
+                vol = argv[argv.index("-v") + 1]
+                in_g, den = ref_help(vol)
+                if in_g and den[1] != "" and gv != den[0] * MULT[den[1]]:
+                    bad = True
+            return 1 if bad else 0
         finally:
             os.chdir(cwd)
             shutil.rmtree(tmp, ignore_errors=True)
